@@ -50,6 +50,18 @@ type FuncContract struct {
 	Terminate bool
 }
 
+// MonitorDecl: state protected by a mutex field and the invariant that holds whenever the mutex is free.
+type MonitorDecl struct {
+	Type     string // pkg.Struct
+	Field    string // mutex field
+	Protects []string
+	Inv      *Clause
+	Props    []string
+	pkg      *types.Package
+	File     string
+	Line     int
+}
+
 type GhostUpdate struct {
 	Ghost string
 	Expr  Expr
@@ -111,21 +123,24 @@ type GlobalAssume struct {
 }
 
 type ContractSet struct {
-	Funcs    map[string]*FuncContract
-	Order    []string
-	Ghosts   map[string]*GhostDecl
-	Folds    map[string]*FoldDecl
-	FoldOrd  []string
-	Lemmas   []*LemmaDecl
-	Assumes  []*GlobalAssume
-	ChanInvs []*GlobalAssume
-	OnRecv   []*GlobalAssume
-	OnRecvUp []*GlobalAssume // ghost updates performed at a receive: Ghost = Expr
-	Specs    map[string]*FuncContract
-	Defs     map[string]*DefDecl
-	Errors   []string
-	pkgUFuns map[string]*UFun
-	pkgOf    map[string]*types.Package // contract name -> package of the file declaring it
+	Funcs      map[string]*FuncContract
+	Order      []string
+	Ghosts     map[string]*GhostDecl
+	Folds      map[string]*FoldDecl
+	FoldOrd    []string
+	Lemmas     []*LemmaDecl
+	Assumes    []*GlobalAssume
+	ChanInvs   []*GlobalAssume
+	OnRecv     []*GlobalAssume
+	OnRecvUp   []*GlobalAssume // ghost updates performed at a receive: Ghost = Expr
+	Monitors   []*MonitorDecl
+	ChanMsgs   []*GlobalAssume   // message invariants: Ghost holds the channel's source name
+	FieldSpecs map[string]string // "pkg.Struct.field" -> closure spec
+	Specs      map[string]*FuncContract
+	Defs       map[string]*DefDecl
+	Errors     []string
+	pkgUFuns   map[string]*UFun
+	pkgOf      map[string]*types.Package // contract name -> package of the file declaring it
 }
 
 // DefDecl: a non-recursive spec-level definition (macro), expanded at use.
@@ -141,7 +156,7 @@ type DefDecl struct {
 
 func NewContractSet() *ContractSet {
 	return &ContractSet{Funcs: map[string]*FuncContract{}, Ghosts: map[string]*GhostDecl{}, Folds: map[string]*FoldDecl{},
-		Specs: map[string]*FuncContract{}, Defs: map[string]*DefDecl{}, pkgOf: map[string]*types.Package{}, pkgUFuns: map[string]*UFun{}}
+		FieldSpecs: map[string]string{}, Specs: map[string]*FuncContract{}, Defs: map[string]*DefDecl{}, pkgOf: map[string]*types.Package{}, pkgUFuns: map[string]*UFun{}}
 }
 
 var rePropID = regexp.MustCompile(`\bC[0-9]{2}\b`)
@@ -410,6 +425,55 @@ func (cs *ContractSet) parseLines(fname string, lines []struct {
 				} else {
 					cs.OnRecv = append(cs.OnRecv, ga)
 				}
+			}
+			cur, curLemma = nil, nil
+		case "fieldspec":
+			// fieldspec pkg.Struct.field SpecName : a function stored in that field implements the closure spec
+			w1, r1 := splitWord(rest)
+			cs.FieldSpecs[w1] = strings.TrimSpace(stripComment(r1))
+			cur, curLemma = nil, nil
+		case "chanmsg":
+			// chanmsg in Scope: channelName: <expr over m>   (asserted at a send, assumed at a receive)
+			txt := rest
+			var scope []string
+			if w2, r2 := splitWord(txt); w2 == "in" {
+				if i := strings.Index(r2, ":"); i >= 0 {
+					for _, sc := range strings.Split(r2[:i], ",") {
+						scope = append(scope, strings.TrimSpace(sc))
+					}
+					txt = strings.TrimSpace(r2[i+1:])
+				}
+			}
+			i := strings.Index(txt, ":")
+			if i < 0 {
+				cs.errf(fname, l.line, "chanmsg: expected '<channel name>: <expr>'")
+				continue
+			}
+			chName := strings.TrimSpace(txt[:i])
+			if c := mkClause(txt[i+1:], l.line, 0); c != nil {
+				cs.ChanMsgs = append(cs.ChanMsgs, &GlobalAssume{Ghost: chName, Scope: scope, Text: c.Text, Expr: c.Expr, File: fname, Line: l.line, pkg: pkg, Props: c.Props})
+			}
+			cur, curLemma = nil, nil
+		case "monitor":
+			// monitor pkg.Struct.field protects a, b, ghost g invariant <expr over self>
+			i := strings.Index(rest, " protects ")
+			j := strings.Index(rest, " invariant ")
+			if i < 0 || j < i {
+				cs.errf(fname, l.line, "monitor: expected '<Type>.<field> protects ... invariant ...'")
+				continue
+			}
+			tf := strings.TrimSpace(rest[:i])
+			k := strings.LastIndex(tf, ".")
+			md := &MonitorDecl{Type: tf[:k], Field: tf[k+1:], pkg: pkg, File: fname, Line: l.line}
+			for _, pr := range strings.Split(rest[i+10:j], ",") {
+				if pr = strings.TrimSpace(pr); pr != "" {
+					md.Protects = append(md.Protects, pr)
+				}
+			}
+			md.Inv = mkClause(rest[j+11:], l.line, 1)
+			if md.Inv != nil {
+				md.Props = md.Inv.Props
+				cs.Monitors = append(cs.Monitors, md)
 			}
 			cur, curLemma = nil, nil
 		case "update":
